@@ -192,6 +192,21 @@ def build_engine(engine, flavour, tier, sources, extra_flags=(), gen_includes=()
 
 
 # ------------------------------------------------------------------ sanitizer report parsing
+def _fn_name(sig):
+    """qualified function name of a symbolized frame: template arguments and parameter lists dropped, return type dropped"""
+    out, depth = [], 0
+    for ch in sig:
+        if ch == "<":
+            depth += 1
+        elif ch == ">":
+            depth = max(0, depth - 1)
+        elif depth == 0:
+            out.append(ch)
+    flat = "".join(out)
+    flat = flat.split("(")[0].strip()
+    return flat.split(" ")[-1] if flat else "?"
+
+
 def sanitizer_key(text):
     """Reduce a sanitizer report to a stable key: kind + first libnop frame."""
     kind = None
@@ -219,9 +234,7 @@ def sanitizer_key(text):
     for m in re.finditer(r"#\d+ 0x[0-9a-f]+ in (.+?) (/\S+?):(\d+)", text):
         fn, path = m.group(1), m.group(2)
         if "/include/nop/" in path:
-            fn = re.sub(r"<.*", "", fn)
-            fn = re.sub(r"\(.*", "", fn)
-            frame = fn.strip() + "@" + path.split("/include/nop/")[1]
+            frame = _fn_name(fn) + "@" + path.split("/include/nop/")[1]
             break
     return kind + "@" + frame
 
@@ -343,6 +356,35 @@ def run_check(cfg, prop, tier, seed, workers, replay=None, keep=False):
             harness_problems.append("worker %d: watchdog timeout twice (inconclusive)" % i)
             continue
         if rc in (0, 1) and os.path.exists(wj):
+            continue
+        if rc == 77:
+            cp = os.path.join(outdir, "worker-%d.current" % i)
+            cur = open(cp, errors="replace").read().strip() if os.path.exists(cp) else ""
+            try:
+                cj = json.loads(cur)
+            except Exception:
+                cj = None
+            if cj is None:
+                harness_problems.append("worker %d: per-case watchdog fired without a replayable case descriptor" % i)
+                continue
+            key = "hang:" + str(cj.get("stage", "")).split("#")[0].split("/")[0] + ":" + re.sub(r"[<{=].*", "", str(cj.get("type", "")))
+            if key in viols:      # this class of hang was already confirmed by re-running another worker's case alone
+                viols[key]["count"] += 1
+                continue
+            rargs = list(base) + ["--worker", "0/1", "--only-type", str(cj.get("type", "")), "--only-case", str(cj.get("case", -1))]
+            if cj.get("stage"):
+                rargs += ["--only-stage", str(cj["stage"])]
+            rdir = os.path.join(outdir, "hangcheck-%d" % i)
+            os.makedirs(rdir, exist_ok=True)
+            rargs[rargs.index("--out") + 1] = rdir
+            _, rc2, to2, _ = run_worker(binary, rargs, env, rdir, 0, cfg.get("hang_recheck_s", 400))
+            if rc2 == 77 or to2:
+                rp = os.path.join(outdir, "replay-%s-hang-w%d.json" % (prop, i))
+                json.dump({"property": prop, "key": key, "what": "the case did not terminate (per-case watchdog fired, and fired again when the case was re-run alone)", "case": cj}, open(rp, "w"), indent=1)
+                e = viols.setdefault(key, {"key": key, "what": "non-termination: %s" % json.dumps(cj)[:300], "count": 0, "replay": rp})
+                e["count"] += 1
+            else:
+                harness_problems.append("worker %d: watchdog fired once but the case terminated when re-run alone (inconclusive, machine load?)" % i)
             continue
         # abnormal exit: sanitizer abort or crash
         cur = ""
